@@ -19,6 +19,12 @@ def h(*parts):
     return int.from_bytes(hashlib.sha256('|'.join(str(p) for p in parts).encode()).digest()[:6], 'big')
 
 
+def benign_error(err):
+    """session errors that are the strategy's own doing (or the known flip run-away), not an engine defect under test"""
+    return err is not None and any(x in err for x in ('InvalidStrategy', 'Insufficient', 'OrderNotAllowed', 'ConflictingRules', 'RunawayFills',
+                                                      'scripted failure'))
+
+
 # ------------------------------------------------------------------------------------------ candles
 def gen_candles(rng, n, style=None, base=None, step=0.5):
     """n one-minute candles on a lattice of `step`; gaps, flats and ties are frequent"""
@@ -214,10 +220,15 @@ class Tap:
         self.Order = Order
         self.orig = (Order.__init__, Order.execute, Order.cancel)
         log = self.log
-        ids = {}
+        counter = [0]
 
         def oid(o):
-            return ids.setdefault(id(o), len(ids) + 1)
+            # a per-object serial number (Python's id() is reused once an order object is garbage-collected)
+            v = getattr(o, '_vid', None)
+            if v is None:
+                counter[0] += 1
+                v = o._vid = counter[0]
+            return v
         o_init, o_exec, o_cancel = self.orig
 
         def init(self_, attributes=None, **kw):
@@ -233,7 +244,13 @@ class Tap:
                         'cur': None if p is None or p.current_price is None else float(p.current_price),
                         'pos': None if p is None else float(p.qty)})
 
+        fills = [0]
+
         def execute(self_, silent=False):
+            fills[0] += 1
+            if fills[0] > 4000:
+                # the engine can flip a position back and forth for ever inside one step (known finding F16): abort the session
+                raise RuntimeError('RunawayFills: more than 4000 executions in one session')
             was = self_.status
             p = store.positions.storage.get(f'{self_.exchange}-{self_.symbol}')
             before = None if p is None else float(p.qty)
@@ -276,7 +293,7 @@ class Tap:
 
 
 def run_session(candles_by_symbol, routes, data_routes=(), exchange_type='futures', fee=0.0, leverage=2, mode='cross', balance=10000.0,
-                fast=False, warmup=None, scripts=None, exchange='Sandbox'):
+                fast=False, warmup=None, scripts=None, exchange='Sandbox', with_vids=False):
     """routes: list of (symbol, timeframe); scripts: dict symbol -> script.  Returns dict(trace, error, result, trades, daily, final)."""
     C.use_repo()
     import numpy as np
@@ -294,31 +311,33 @@ def run_session(candles_by_symbol, routes, data_routes=(), exchange_type='future
         wc = {jh.key(exchange, s): {'exchange': exchange, 'symbol': s, 'candles': np.array(c, dtype=float)} for s, c in warmup['candles'].items()}
     out = {'trace': log, 'error': None, 'result': None}
     snap = {}
-    # capture the store before _isolated_backtest resets it
-    orig_reset = store.reset
+    # capture the store right after the simulator returns, before _isolated_backtest resets it
+    import jesse.modes.backtest_mode as bm
+    orig_sim = bm.simulator
 
-    def grab(*a, **k):
+    def sim(*a, **k):
+        r = orig_sim(*a, **k)
         try:
-            if 'trades' not in snap and store.app.daily_balance:
-                snap['trades'] = [{'type': t.type, 'qty': float(t.qty), 'entry': float(t.entry_price), 'exit': float(t.exit_price),
-                                   'pnl': float(t.pnl), 'fee': float(t.fee), 'opened_at': t.opened_at, 'closed_at': t.closed_at,
-                                   'orders': [(o.side, float(o.qty), float(o.price)) for o in t.orders], 'symbol': t.symbol}
-                                  for t in store.completed_trades.trades]
-                snap['daily'] = [float(x) for x in store.app.daily_balance]
-                e = store.exchanges.storage[exchange]
-                snap['final'] = {k: float(v) for k, v in e.assets.items()}
-                snap['liquidations'] = store.app.total_liquidations
-                snap['positions'] = {k: float(p.qty) for k, p in store.positions.storage.items()}
+            snap['trades'] = [{'type': t.type, 'qty': float(t.qty), 'entry': float(t.entry_price), 'exit': float(t.exit_price),
+                               'pnl': float(t.pnl), 'fee': float(t.fee), 'opened_at': t.opened_at, 'closed_at': t.closed_at,
+                               'orders': [(o.side, float(o.qty), float(o.price)) for o in t.orders], 'symbol': t.symbol,
+                               'order_vids': [getattr(o, '_vid', None) for o in t.orders]}
+                              for t in store.completed_trades.trades]
+            snap['daily'] = [float(x) for x in store.app.daily_balance]
+            e = store.exchanges.storage[exchange]
+            snap['final'] = {k_: float(v) for k_, v in e.assets.items()}
+            snap['liquidations'] = store.app.total_liquidations
+            snap['positions'] = {k_: float(p.qty) for k_, p in store.positions.storage.items()}
         except Exception as ex:
             snap['snap_error'] = repr(ex)
-        return orig_reset(*a, **k)
+        return r
     with Tap(log):
-        store.reset = grab
+        bm.simulator = sim
         try:
             out['result'] = research.backtest(cfg, rts, drs, cd, warmup_candles=wc, fast_mode=fast, generate_equity_curve=False)
         except Exception as e:
             out['error'] = type(e).__name__ + ': ' + str(e)[:200]
         finally:
-            store.reset = orig_reset
+            bm.simulator = orig_sim
     out.update(snap)
     return out
